@@ -1,7 +1,7 @@
 (* Sem/CallsScan.v — what the CALL_RE / SUBCALL_RE recognisers of Sem/Calls.v find in the text of
    one nesting level of a rendered expression or statement (towards C08_raw). *)
 From Coq Require Import Lia.
-From Ford Require Import Base.Str Base.StrFacts Gen.Intrinsics Sem.Calls Sem.CallsSpec Sem.CallsStrip.
+From Ford Require Import Base.Str Base.StrFacts Gen.Intrinsics Sem.Calls Sem.CallsSpec Sem.CallsDefs Sem.CallsStrip.
 
 (* ------------------------------------------------------------------ character classes *)
 Lemma word_not_space c : is_word c = true -> is_space c = false.
@@ -55,7 +55,6 @@ Proof.
   destruct (p c) eqn:E; [|reflexivity]. destruct (span p x) as [a b]. cbn [fst forallb] in *. now rewrite E.
 Qed.
 
-Definition lstrip_s (x : str) : str := snd (span is_space x).
 
 Lemma span_space x : span is_space x = (fst (span is_space x), lstrip_s x).
 Proof. unfold lstrip_s. now destruct (span is_space x). Qed.
@@ -126,8 +125,6 @@ Proof.
   cbn [map concat]. rewrite (match_req_name w rest Hw Ha). reflexivity.
 Qed.
 
-(* ------------------------------------------------------------------ designators *)
-Definition par2 : str := [lpar; rpar].
 
 (* the prefix iterations a designator offers: every part but the last *)
 Fixpoint d_items (d : desig) : list (bool * str * str) :=
@@ -610,14 +607,6 @@ Proof.
   cbn [lower map forallb]. rewrite (lower_word c Hc). exact (IH H).
 Qed.
 
-(* the chain of names up to the last part with an argument list *)
-Fixpoint d_head_chain (d : desig) : option chain :=
-  match d with
-  | DLast0 _ => None
-  | DLastA x _ => Some [lower x]
-  | DPart0 x r => match d_head_chain r with Some c => Some (lower x :: c) | None => None end
-  | DPartA x _ r => Some (lower x :: match d_head_chain r with Some c => c | None => [] end)
-  end.
 
 Lemma norm_word_par x : forallb is_word x = true -> norm_chain (x ++ par2) = [lower x].
 Proof.
@@ -650,16 +639,6 @@ Proof.
     + now rewrite (norm_word_par x (proj1 (name_wordy x Hx))).
 Qed.
 
-(* reference heads of one level, as chains *)
-Definition d_heads0 (d : desig) : list chain := match d_head_chain d with Some c => [c] | None => [] end.
-Fixpoint e_heads0 (e : expr) : list chain :=
-  match e with
-  | ELit _ => []
-  | EDes d => d_heads0 d
-  | EPar _ => []
-  | EUn _ e' => e_heads0 e'
-  | EBin a _ b => e_heads0 a ++ e_heads0 b
-  end.
 
 Lemma e_heads_norm e : wf_e e = true -> map norm_chain (e_heads e) = e_heads0 e.
 Proof.
